@@ -126,9 +126,51 @@ E2Add(C, P, Q) ==
               x3 == PNorm(PAdd(PAdd(PAdd(PAdd(GSqr(lam, F), lam), x1), x2), E2A(C)))
               y3 == PNorm(PAdd(PAdd(GMul(lam, PAdd(x1, x3), F), x3), y1))
           IN <<x3, y3>>
-E2Mul(C, k, P) ==
+\* THE DEFINITION of kP: double-and-add with the affine law
+E2MulA(C, k, P) ==
   FoldLeft(LAMBDA acc, i : LET d == E2Dbl(C, acc) IN IF Bit(k, i) = 1 THEN E2Add(C, d, P) ELSE d,
            <<>>, Reverse(Rng(0, BitLen(k) - 1)))
+\* Lopez-Dahab projective coordinates (X : Y : Z) ~ (X / Z, Y / Z^2), O = (1 : 0 : 0): textbook formulas (Hankerson, Menezes,
+\* Vanstone, Guide to ECC, algorithms 3.24 / 3.25), used ONLY as a faster evaluation of kP (one inversion instead of one per
+\* step); ref/SchemeVectors.tla checks E2Mul = E2MulA on a complete tiny curve and on the DSTU B.1 example.
+LDO == <<POne, PZero, PZero>>
+LDIsO(J) == PIsZero(J[3])
+LDDbl(C, J) ==
+  IF LDIsO(J) THEN LDO ELSE
+  LET F == C.F  X1 == J[1]  Y1 == J[2]  Z1 == J[3]
+      Z2 == GSqr(Z1, F)                         \* Z1^2
+      X2 == GSqr(X1, F)                         \* X1^2
+      bZ4 == GMul(C.B, GSqr(Z2, F), F)          \* b Z1^4
+      Z3 == GMul(X2, Z2, F)
+      X3 == PNorm(PAdd(GSqr(X2, F), bZ4))
+      aZ3 == IF C.A = 1 THEN Z3 ELSE PZero
+      Y3 == PNorm(PAdd(GMul(bZ4, Z3, F), GMul(X3, PAdd(PAdd(aZ3, GSqr(Y1, F)), bZ4), F)))
+  IN <<X3, Y3, PNorm(Z3)>>
+\* J + affine P (P # O)
+LDAddA(C, J, P) ==
+  IF LDIsO(J) THEN <<P[1], P[2], POne>> ELSE
+  LET F == C.F  X1 == J[1]  Y1 == J[2]  Z1 == J[3]  x2 == P[1]  y2 == P[2]
+      Z1s == GSqr(Z1, F)
+      A == PNorm(PAdd(GMul(y2, Z1s, F), Y1))
+      B == PNorm(PAdd(GMul(x2, Z1, F), X1))
+  IN IF PIsZero(B) THEN (IF PIsZero(A) THEN LDDbl(C, <<x2, y2, POne>>) ELSE LDO) ELSE
+     LET Cc == GMul(Z1, B, F)
+         aZ == IF C.A = 1 THEN Z1s ELSE PZero
+         D == GMul(GSqr(B, F), PAdd(Cc, aZ), F)
+         Z3 == GSqr(Cc, F)
+         E == GMul(A, Cc, F)
+         X3 == PNorm(PAdd(PAdd(GSqr(A, F), D), E))
+         Ff == PAdd(X3, GMul(x2, Z3, F))
+         G == GMul(PAdd(x2, y2), GSqr(Z3, F), F)
+         Y3 == PNorm(PAdd(GMul(PAdd(E, Z3), Ff, F), G))
+     IN <<X3, Y3, PNorm(Z3)>>
+LDToA(C, J) ==
+  IF LDIsO(J) THEN <<>> ELSE
+  LET zi == GInv(J[3], C.F) IN <<PNorm(GMul(J[1], zi, C.F)), PNorm(GMul(J[2], GSqr(zi, C.F), C.F))>>
+E2Mul(C, k, P) ==
+  IF E2IsO(P) THEN <<>> ELSE
+  LDToA(C, FoldLeft(LAMBDA acc, i : LET d == LDDbl(C, acc) IN IF Bit(k, i) = 1 THEN LDAddA(C, d, P) ELSE d,
+                    LDO, Reverse(Rng(0, BitLen(k) - 1))))
 
 \* ------------------------------------------------------------------ dstu (DSTU 4145-2002)
 \* 5.9: hash -> field element: the first m bits of the hash (zero padded), 0 -> 1
